@@ -27,6 +27,8 @@ class Bind:
         if not v: return False
         if op in ("init", "nullinit"):
             return bool(v["linit"]) if path == "legacy" else bool(v["init"])
+        if op == "payload":
+            return bool(v["payload"])
         kind = "get" if op in ("get", "nullget", "badget", "nullout") else "set"
         if path == "generic": return bool(v["g" + kind])
         if path == "legacy": return bool(v["l" + kind])
@@ -94,7 +96,7 @@ def compare(vec, line, v, pid, what, extra_key=""):
             ok = rep("rc", "%s: return code %d, specification says %d" % (what, rc, -vec["rc"]))
         if out != hexs(vec["out"]):
             ok = rep("out", "%s: result object holds %s, specification says %s" % (what, out, hexs(vec["out"])))
-    elif vec["op"] in ("get", "nullget", "badget"):
+    elif vec["op"] in ("get", "nullget", "badget", "payload"):
         if ret != hexs(vec["ret"]):
             ok = rep("ret", "%s: returned %s, specification says %s (buffer %s)" % (what, ret, hexs(vec["ret"]), hexs(vec["pre"])))
     if canary != "0":
@@ -118,10 +120,29 @@ def placements_for(vec, tier, rnd):
     return pl
 
 
-def replay(v, ex, bind, vectors, pid, tier, rnd, readback=False):
+def published(vec, bind):
+    """C03: an exact-extent buffer has the *published* header length of the tree under test.
+    If that is shorter than the specification's header the vector is cut (an access beyond it then
+    faults against the guard page); if longer, patterned bytes are appended (they must survive)."""
+    if vec["base"] != 0: return vec
+    pub = bind.views[vec["view"]]["header_len"]
+    n = len(vec["pre"])
+    if pub == n or pub <= 0: return vec
+    w = dict(vec)
+    if pub < n:
+        w["pre"], w["post"] = vec["pre"][:pub], vec["post"][:pub]
+    else:
+        ext = [(0x6B + 5 * i) & 255 for i in range(pub - n)]
+        w["pre"], w["post"] = vec["pre"] + ext, vec["post"] + ext
+    return w
+
+
+def replay(v, ex, bind, vectors, pid, tier, rnd, readback=False, publen=False):
     """Execute TLC transitions through the real API and compare.  Returns stats."""
     cmds, meta = [], []
     skipped = 0
+    if publen:
+        vectors = [published(x, bind) for x in vectors]
     for vec in vectors:
         pls = placements_for(vec, tier, rnd)
         for place, off in pls:
@@ -328,3 +349,142 @@ def shard(lst, n):
     n = max(1, min(n, len(lst)))
     k = (len(lst) + n - 1) // n
     return [lst[i * k:(i + 1) * k] for i in range(n)]
+
+
+# ------------------------------------------------------------------ histories (C05, C17)
+def hist_cfg(mode, views, depth, nvals, imgs, nbuf, rand, invs):
+    t = "SPECIFICATION HSpec\nCONSTANTS\n  Buf = {%s}\n  Mode = \"%s\"\n  HViews = {%s}\n  Depth = %d\n  NVals = %d\n  Imgs = {%s}\n  Rand = %s\n" % (
+        ", ".join(str(i + 1) for i in range(nbuf)), mode, ", ".join('"%s"' % x for x in views), depth, nvals,
+        ", ".join(str(i) for i in imgs), "TRUE" if rand else "FALSE")
+    t += "CONSTRAINT EmitHist\nCHECK_DEADLOCK FALSE\n"
+    for i in invs: t += "INVARIANT %s\n" % i
+    return t
+
+
+def replay_histories(v, ex, bind, hists, pid, rnd):
+    """Each history is executed in one process, on persistent buffers, without resets; after every
+    step the whole buffer, the result and the return code are compared with TLC's prediction."""
+    cmds, meta = [], []
+    skipped = 0
+    for hi, h in enumerate(hists):
+        ok = True
+        for o in h["ops"]:
+            if not bind.has_path(o["view"], o["field"], o["op"], o["path"]):
+                ok = False
+        if not ok:
+            skipped += 1; continue
+        for bi, b in enumerate(h["bufs"]):
+            cmds.append("N %d %d %s" % (bi + 1, rnd.randrange(16), hexs(b["mem"]))); meta.append(None)
+        cur = {bi + 1: b["mem"] for bi, b in enumerate(h["bufs"])}
+        for k, o in enumerate(h["ops"]):
+            fidx = bind.fidx[o["view"]].get(o["field"], -1) if o["field"] else -1
+            cmds.append("D %d %s %s %s %d 0 %s %d" % (o["buf"], o["view"], o["op"], o["path"], fidx, hexs(o["val"]), o["base"]))
+            vec = dict(o); vec["pre"] = cur[o["buf"]]
+            cur[o["buf"]] = o["post"]
+            meta.append((vec, "history %d step %d (%s)" % (hi, k + 1, " ; ".join("%s %s.%s/%s" % (x["op"], x["view"], x["field"], x["path"]) for x in h["ops"][max(0, k - 3):k + 1])),
+                         " hist"))
+    outs = ex.run(cmds)
+    if len(outs) != len(cmds):
+        raise Infra("executor answered %d lines for %d commands: %s" % (len(outs), len(cmds), ex.stderr[-500:]))
+    bad = 0
+    for m, line in zip(meta, outs):
+        if m is None: continue
+        vec, what, xk = m
+        if not compare(vec, line, v, pid, what, ""):
+            bad += 1
+    return {"executed": len(cmds), "histories": len(hists) - skipped, "skipped_unbound": skipped, "mismatches": bad}
+
+
+def drive_histories(rnd, bind, layout, nhist, depth, views, nbuf=3):
+    """Seeded random histories on persistent buffers (trace direction): returns cmds and event skeletons."""
+    cmds, evs = [], []
+    for _ in range(nhist):
+        bufs = []
+        for b in range(nbuf):
+            view = rnd.choice(views)
+            lead = rnd.choice((0, 0, 1, 3, 6))
+            L = layout["hdrlen"][view]
+            m = rand_bytes(rnd, lead + L + rnd.choice((0, 2, 5)))
+            bufs.append((view, lead))
+            cmds.append("N %d %d %s" % (b, rnd.randrange(16), hexs(m)))
+            evs.append({"e": "load", "buf": b, "base": lead, "mem": m})
+        for _ in range(depth):
+            b = rnd.randrange(nbuf)
+            view, lead = bufs[b]
+            if rnd.random() < 0.08:     # another view of the same bytes, if it fits
+                cand = [x for x in views if layout["hdrlen"][x] <= layout["hdrlen"][view]]
+                view2 = rnd.choice(cand)
+            else:
+                view2 = view
+            op = rnd.choice(("get", "set", "set", "init"))
+            fields = list(layout["fields"][view2].keys())
+            field, path, val = "", "", 0
+            if op in ("get", "set"):
+                field = rnd.choice(fields)
+                paths = [p for p in ("generic", "dedicated", "legacy") if bind.has_path(view2, field, op, p)]
+                if not paths: continue
+                path = rnd.choice(paths)
+                if op == "set": val = rand_val(rnd, layout["fields"][view2][field])
+            else:
+                paths = [p for p in ("current", "legacy") if bind.has_path(view2, "", "init", p)]
+                if not paths: continue
+                path = rnd.choice(paths)
+                if path == "legacy" and view2 == "Cvf": val = rnd.randrange(256)
+            fidx = bind.fidx[view2].get(field, -1) if field else -1
+            cmds.append("D %d %s %s %s %d 0 %s %d" % (b, view2, op, path, fidx, hexs(v64(val)), lead))
+            evs.append({"e": "op", "buf": b, "base": lead, "op": op, "view": view2, "field": field, "path": path,
+                        "val": v64(val), "id": ""})
+    return cmds, evs
+
+
+def finish_hist_events(evs, outs, v, pid):
+    done = []
+    for ev, line in zip(evs, outs):
+        if ev["e"] == "load":
+            done.append(ev); continue
+        t = line.split()
+        status, ret, rc, out, post, canary = t[1], t[2], int(t[3]), t[4], t[5], t[6]
+        key = "view=%s op=%s path=%s field=%s" % (ev["view"], ev["op"], ev["path"], ev["field"] or "-")
+        if status.startswith("fault"):
+            v.violation(key + " kind=fault", "call inside a random history faulted (%s)" % status, {"event": ev}); break
+        if canary != "0":
+            v.violation(key + " kind=canary", "call inside a random history modified memory outside its buffer", {"event": ev}); break
+        e = dict(ev); e.update(post=unhexs(post), ret=unhexs(ret), rc=-rc, out=unhexs(out))
+        done.append(e)
+    return done
+
+
+# ------------------------------------------------------------------ facts
+def fact_events(bind, layout, kinds):
+    """Static facts of the compiled tree as trace events for FactsTrace."""
+    evs = []
+    for view, vb in bind.views.items():
+        if "sizes" in kinds:
+            evs.append({"e": "fact", "kind": "header_len", "view": view, "name": vb["len_macro"], "value": vb["header_len"]})
+            evs.append({"e": "fact", "kind": "sizeof", "view": view, "name": "sizeof(Avtp_%s_t)" % view, "value": vb["sizeof"]})
+            evs.append({"e": "fact", "kind": "payload_offset", "view": view, "name": "offsetof(Avtp_%s_t,payload)" % view, "value": vb["payload_offset"]})
+        if "ret_bits" in kinds:
+            for f in vb["fields"]:
+                if f["get"] and f["name"] in layout["fields"].get(view, {}):
+                    evs.append({"e": "fact", "kind": "ret_bits", "view": view, "field": f["name"], "name": f["get_sym"], "value": 8 * f["ret_size"]})
+        if "legacy" in kinds:
+            byid = {f["id"]: f["name"] for f in vb["fields"]}
+            for fa in vb["facts"]:
+                if fa["kind"] == "macro":
+                    if fa["value"] == vb["field_max"] and fa["name"].endswith("_MAX"):
+                        evs.append({"e": "fact", "kind": "alias_max", "view": view, "name": fa["name"], "value": fa["value"]})
+                    else:
+                        evs.append({"e": "fact", "kind": "alias", "view": view, "name": fa["name"], "field": byid.get(fa["value"], "?"), "value": fa["value"]})
+                elif fa["kind"] == "sizeof":
+                    evs.append({"e": "fact", "kind": "struct_size", "view": view, "name": fa["name"], "value": fa["value"]})
+                elif fa["kind"] == "offsetof":
+                    nm, mem = fa["name"].rsplit(".", 1)
+                    evs.append({"e": "fact", "kind": "struct_member", "view": view, "name": nm, "member": mem, "value": fa["value"]})
+    return evs
+
+
+def validate_facts(v, wd, evs, pid):
+    cfg = open(os.path.join(SPEC, "FactsTrace.cfg")).read()
+    def key(ev):
+        return "fact=%s view=%s name=%s" % (ev["kind"], ev.get("view"), ev.get("name") + ("." + ev["member"] if "member" in ev else ""))
+    return validate_events(v, wd, [evs], pid, name="facts", module="FactsTrace", cfg=cfg, keyfn=key)
